@@ -192,8 +192,13 @@ def run(chk: lib.PropertyCheck, no_model=False) -> int:
     # 6. a broken tie without a failing input: search the implementation with the oracle
     searched = 0
     if broken and not failures:
+        budget = float(os.environ.get('VERIF_SEARCH_S', '240' if chk.tier == 'quick' else '1500'))
+        t_search = time.time()
         try:
             for c in chk.search_cases():
+                if time.time() - t_search > budget:
+                    chk.notes.append(f'failing-input search stopped after {budget:.0f}s ({searched} inputs)')
+                    break
                 searched += 1
                 obs = lib.canon(chk.run_impl(c))
                 msg = chk.oracle(c, obs)
